@@ -155,7 +155,8 @@ pub fn build_env() -> Env {
     for ww in [&w, &f] {
         must(&mut s, Tx::one(ix::init_bank_metadata(ww.banks[0].key, ww.payer), &[ww.payer]), "init metadata");
         let cfg = marginfi::instructions::StakedSettingsConfig {
-            oracle: ww.banks[1].oracle.unwrap(),
+            // both groups' staked settings name the same SOL feed, as groups on a real cluster do
+            oracle: w.banks[1].oracle.unwrap(),
             asset_weight_init: I80F48::from_num(0.7).into(),
             asset_weight_maint: I80F48::from_num(0.8).into(),
             deposit_limit: 1_000_000_000_000,
